@@ -81,6 +81,9 @@ class Module:
             return node.value
         raise AnchorMissing(f"{self.name}.{name}: not an assignment")
 
+    def has_class(self, name: str) -> bool:
+        return isinstance(self._top.get(name), ast.ClassDef)
+
     def cls(self, name: str) -> ast.ClassDef:
         node = self.top(name)
         if not isinstance(node, ast.ClassDef):
